@@ -791,3 +791,24 @@ def decided_reachable(body, sinks, call_decider, switch_decider, max_states=5000
         for n in nxt:
             work.append((n, fenv))
     return hit
+
+
+def capture_operand(F, closure_body, upvar_name):
+    """(parent body, operand) the closure captured for the upvar of that name, read from the closure-creation aggregate in the
+    parent (captures are listed in the order of the closure's upvars)"""
+    parent = F.get(closure_body.parent) if closure_body.parent else None
+    if parent is None:
+        return None, None
+    ups = []
+    for n, p in closure_body.vars:
+        if any(isinstance(x, str) and x.startswith(".^") for x in p) and n not in ups:
+            ups.append(n)
+    if upvar_name not in ups:
+        return parent, None
+    idx = ups.index(upvar_name)
+    for (bb, cdef, st) in parent.closures_created():
+        if cdef == closure_body.defp:
+            ops = st[1][5]
+            if idx < len(ops):
+                return parent, ops[idx]
+    return parent, None
